@@ -65,6 +65,8 @@ ASSUMPTIONS = [
     "tolerance bands for the round trip are accuracy statements of b2a's 16x padded log-spectrum (DESIGN.md C19): 1e-6 "
     "(max|B| <= 0.95), 1e-4 (<= 0.99), 3e-3 (<= 0.9999), 3e-2 above and where b2a renormalises max|B| >= 1",
     "cancel_alpha_phs=False only",
+    "a dzrf call in which scipy.signal.remez reports 'Failure to converge' (seen once in 80 000 designs: "
+    "dzrf(230, 6, 'inv', 'max', 0.00302, 0.001), 459-tap remez) yields no beta polynomial and is labelled, not failed",
 ]
 
 GAM = 267.522 * 1e6 / 1000  # rad/s/mT, the constant abrm_ptx uses
@@ -394,8 +396,16 @@ def check_dz(case):
             s = case["sets"][(pi + fi + case["rot"]) % 5]
             n, tb, d1, d2 = s["n"], s["tb"], s["d1"], s["d2"]
             what = "dzrf(%d, %s, %r, %r, %r, %r)" % (n, tb, p, f, d1, d2)
-            ok, pulse = _call(r, "slr:dz:dzrf", lambda: slr.dzrf(n, tb, p, f, d1, d2))
-            if not ok:
+            try:
+                with warnings.catch_warnings():
+                    warnings.simplefilter("ignore")
+                    pulse = slr.dzrf(n, tb, p, f, d1, d2)
+            except Exception as e:
+                if isinstance(e, ValueError) and "Failure to converge" in str(e) and f in ("pm", "min", "max"):
+                    # scipy.signal.remez gave up (long equiripple filters): no beta polynomial exists to quantify over
+                    r.label("dz:remez-no-converge")
+                else:
+                    r.fail("slr:dz:dzrf:raises", "%s: %s: %s" % (what, type(e).__name__, e))
                 continue
             bsf, e1, e2 = slr.calc_ripples(p, d1, d2)
             des = {"ms": lambda: slr.msinc(n, tb / 4), "pm": lambda: slr.dzlp(n, tb, e1, e2),
